@@ -31,9 +31,16 @@ import dinoutil
 
 CORR_RTOL = 1e-9
 PAIR_TOL = 1e-12       # |<Jv,w> - <v,J^T w>| relative to sum |Jv_i w_i| + sum |v_i (J^T w)_i|   (measured <= 6e-17)
-FD_RTOL = 2e-6         # |FD - Jv| relative to max|Jv| of the leaf ...
-FD_FLOOR = 1e-8        # ... plus this times max|f| of the leaf (rounding of the difference quotient: eps |f| / h)
-FD_STEP = 1e-5         # relative to the size of the state
+# smooth entry points: Richardson-extrapolated central difference (4 D(h) - D(2h)) / 3, h = 1e-3 of the state scale
+# (truncation O(h^4), rounding eps |f| / h); measured: error <= 5e-11 max|Jv| and <= 3e-12 max|f| on every probe
+FD_STEP = 1e-3
+FD_RTOL = 1e-8         # |FD - Jv| relative to max|Jv| of the leaf ...
+FD_FLOOR = 1e-10       # ... plus this times max|f| of the leaf
+# piecewise-smooth entry points (interpolation, maximum): plain central difference with a small step, so that a
+# perturbation hardly ever straddles a kink; entries whose one-sided quotients disagree are not compared
+FD_STEP_K = 1e-5       # measured: error <= 3e-10 max|Jv|, <= 5e-10 max|f|
+FD_RTOL_K = 2e-6
+FD_FLOOR_K = 1e-8
 GRAD_TOL = 1e-11       # nested vs flat scan, checkpoint vs none: relative (measured <= 4e-16)
 RULE = ('correspondence: node sets of 1..8 nodes (uniform, uneven, strongly uneven), queries below / at / between / '
         'beyond the nodes, random data and tangents; 1..8 sigma layers equidistant / uneven / strongly uneven; grids '
@@ -363,6 +370,36 @@ def _corr(ctx, E):
         add(f'teq {pvec} {fbits(sig[k])} {fvec(lat)} {dvec(ps, dps)}', 'HeldSuarezForcing.equilibrium_temperature',
             dict(inp, level=k, sigma=float(sig[k])), v[k], t[k], key=(ci, k))
 
+  # ---- Jacobian chains: the model's jvpChain / vjpChain (T8.1) against jax.jvp / jax.vjp of a composition ----
+  chain_lines, chain_checks = [], []
+  for ci in range(ctx.n(4, 40)):
+    b, kind = dinoutil.random_boundaries(rng, int(rng.integers(2, 7)), None)
+    n = len(b) - 1
+    coords = sc.SigmaCoordinates(b)
+    J = jnp.asarray
+    w0 = J(rng.standard_normal(n - 1))
+    f1 = lambda x: sc.centered_vertical_advection(w0, x, coords, axis=0) + 0.1 * x ** 2
+    f2 = lambda y: (sc.cumulative_sigma_integral(jnp.tanh(y), coords, axis=0) * y[0])[:max(1, n - 1)]
+    x, v, w = rng.standard_normal(n), rng.standard_normal(n), rng.standard_normal(max(1, n - 1))
+    inp = dict(boundaries=b.tolist(), x=x.tolist(), v=v.tolist(), w=w.tolist())
+    with ctx.impl('corr-exception:chain', inp):
+      J1 = np.asarray(jax.jacfwd(f1)(J(x)))
+      J2 = np.asarray(jax.jacfwd(f2)(f1(J(x))))
+      comp = lambda q: f2(f1(q))
+      lhs = float(np.vdot(np.asarray(jax.jvp(comp, (J(x),), (J(v),))[1]), w))
+      rhs = float(np.vdot(v, np.asarray(jax.vjp(comp, J(x))[1](J(w))[0])))
+      chain_lines.append(f'ad F pairing {common.fmat(J1)}/{common.fmat(J2)} {fvec(v)} {fvec(w)}')
+      chain_checks.append((inp, lhs, rhs, max(np.abs(J1).max(), 1.0) * max(np.abs(J2).max(), 1.0)))
+      ctx.case(('chain', ci, ctx.seed), nontrivial=True)
+      ctx.dist['corr:jvp-vjp-chain'] += 1
+  for (inp, lhs, rhs, sc_), o in zip(chain_checks, ctx.model(chain_lines)):
+    if ',' not in o:
+      ctx.corr_mismatch('jvpChain/vjpChain', inp, (lhs, rhs), o, 'model rejected the operation')
+      continue
+    m = common.unfvec(o)
+    ctx.corr_float('jax.jvp of a composition vs jvpChain', inp, [lhs], [m[0]], rtol=CORR_RTOL, atol=1e-12 * sc_)
+    ctx.corr_float('jax.vjp of a composition vs vjpChain', inp, [rhs], [m[1]], rtol=CORR_RTOL, atol=1e-12 * sc_)
+
   outs = ctx.model(lines)
   worst = 0.0
   for (op, inp, val, tan), o in zip(checks, outs):
@@ -424,8 +461,11 @@ def _deriv_probe(ctx, E, key, f, x, v, inp, fd=True, kinks=False, nontrivial=Tru
     ctx.expect(all(dinoutil.relerr(a, b) <= 1e-12 for a, b in zip(lo, _leaves(E, out2))), key + ':primal',
                'jax.jvp and jax.vjp return different primal values', inp)
     if fd:
-      h = FD_STEP
+      h = FD_STEP_K if kinks else FD_STEP
+      rtol, floor = (FD_RTOL_K, FD_FLOOR_K) if kinks else (FD_RTOL, FD_FLOOR)
       fp_, fm_ = _leaves(E, f(_axpy(E, x, v, h))), _leaves(E, f(_axpy(E, x, v, -h)))
+      if not kinks:
+        fp2, fm2 = _leaves(E, f(_axpy(E, x, v, 2 * h))), _leaves(E, f(_axpy(E, x, v, -2 * h)))
       for i, (a, b, o, t) in enumerate(zip(fp_, fm_, lo, lj)):
         d = (a - b) / (2 * h)
         ok_entries = np.ones(d.shape, dtype=bool)
@@ -433,13 +473,15 @@ def _deriv_probe(ctx, E, key, f, x, v, inp, fd=True, kinks=False, nontrivial=Tru
           dp, dm = (a - o) / h, (o - b) / h
           ok_entries = np.abs(dp - dm) <= 1e-3 * (np.abs(dp).max(initial=0.0) + np.abs(dm).max(initial=0.0)) + 1e-300
           ctx.dist['probe-fd-kink-entries'] += int((~ok_entries).sum())
+        else:
+          d = (4 * d - (fp2[i] - fm2[i]) / (4 * h)) / 3
         if not ok_entries.any():
           continue
         err = float(np.abs(d - t)[ok_entries].max())
-        tol = FD_RTOL * float(np.abs(t).max(initial=0.0)) + FD_FLOOR * float(np.abs(o).max(initial=0.0)) + 1e-300
-        _stat(ctx, 'finite-difference (error / tolerance)', err / tol, key)
+        tol = rtol * float(np.abs(t).max(initial=0.0)) + floor * float(np.abs(o).max(initial=0.0)) + 1e-300
+        _stat(ctx, 'finite-difference (error / tolerance)' + (' [piecewise-smooth]' if kinks else ''), err / tol, key)
         ctx.expect(err <= tol, key + ':finite-difference',
-                   f'leaf {i}: central difference (h={h}) differs from jax.jvp by {err:.3e} '
+                   f'leaf {i}: finite difference (h={h}) differs from jax.jvp by {err:.3e} '
                    f'(max|Jv| = {np.abs(t).max(initial=0.0):.3e}, max|f| = {np.abs(o).max(initial=0.0):.3e})', inp)
     return jv
 
@@ -618,6 +660,26 @@ def _probes_ops(ctx, E, grid, gname, n):
     _deriv_probe(ctx, E, f'interp_pressure_to_sigma:{iname}',
                  lambda a: E.vi.interp_pressure_to_sigma(a[0], pc, sig, a[1], vfn), (fp_, sp), (dfp_, dsp), info,
                  kinks=True)
+  # hybrid -> sigma (linear interpolation and conservative regridding): nodes / cell bounds move with p_s
+  nh = 6
+  sb = np.linspace(0, 1, nh + 1) ** 1.3
+  hyb = E.vi.HybridCoordinates(a_boundaries=sp0 * 0.6 * sb * (1 - sb), b_boundaries=sb - 0.6 * sb * (1 - sb))
+  fh, dfh = J(rng.standard_normal((nh,) + ns)), J(rng.standard_normal((nh,) + ns))
+  sp2, dsp2 = J(sp0 * (1 + 0.03 * rng.standard_normal(ns))), J(10.0 * rng.standard_normal(ns))
+  info = dict(ginfo, a_boundaries=hyb.a_boundaries.tolist(), b_boundaries=hyb.b_boundaries.tolist(),
+              sigma_boundaries=b.tolist())
+  _deriv_probe(ctx, E, 'interp_hybrid_to_sigma', lambda a: E.vi.interp_hybrid_to_sigma(a[0], hyb, sig, a[1]),
+               (fh, sp2), (dfh, dsp2), info, kinks=True)
+  _deriv_probe(ctx, E, 'regrid_hybrid_to_sigma', lambda a: E.vi.regrid_hybrid_to_sigma(a[0], hyb, sig, a[1]),
+               (fh, sp2), (dfh, dsp2), info, kinks=True)
+  # surface pressure from geopotential on pressure levels (linear interpolation with data-dependent nodes)
+  plev = E.vi.PressureCoordinates(np.array([300.0, 500.0, 700.0, 850.0, 1000.0]))
+  g0 = 9.8
+  geo = g0 * 8000.0 * np.log(1013.0 / plev.centers)[:, None, None] * (1 + 0.01 * rng.standard_normal((5,) + ns))
+  oro_n = rng.uniform(0.0, 1500.0, (1,) + ns)
+  _deriv_probe(ctx, E, 'get_surface_pressure', lambda a: E.vi.get_surface_pressure(plev, a[0], a[1], g0),
+               (J(geo), J(oro_n)), (J(geo * 0.01 * rng.standard_normal(geo.shape)), J(100.0 * rng.standard_normal(oro_n.shape))),
+               dict(ginfo, pressure_levels=plev.centers.tolist()), kinks=True)
   # semi-Lagrangian vertical advection: the interpolation nodes depend on the state
   eq, coords, specs, tref, mk, info = _pe_setup(ctx, E, grid, max(n, 3), 'dry')
   x, v = mk(), mk(base=False)
